@@ -77,8 +77,16 @@ class Engine:
              # uploads (blobs above 128 bytes in 96 byte chunks), paged tag / referrer listings
              "callback": self.rng.choice([0, 1]), "cache": self.rng.choice([0, 0, 1]),
              "chunked": self.rng.choice([0, 0, 1]), "pagesize": self.rng.choice([0, 0, 1, 2])}
+        # what the same client did before (caches and feature memos carry over), for registry targets; the order
+        # in which registries list tags / referrers
+        if pair in ("tworeg", "samereg", "dir2reg"):
+            s["prior"] = self.rng.choice(["", "", "copy", "get"])
+            if s["prior"] and self.rng.random() < 0.7:
+                s["cache"] = 1
+        s["listorder"] = self.rng.choice(["", "", "rev", "ins", "rand"])
         s.update(kw)
         if s["mode"] == "script":
+            s["prior"] = ""
             # (D) has one request per upload / listing and no cache: keep its scripts exact
             s.update(cache=0, chunked=0, pagesize=0)
         return s
@@ -272,6 +280,17 @@ class Engine:
                 s.update(id="%s-%d" % (origin, self.n), origin=origin, mode="delay",
                          hold=[{"host": p["host"], "class": p["class"], "n": p["n"]}])
                 out.append(s)
+        return out
+
+    def client_history(self, origin, shapes=("idx2", "nested", "docker", "dupentry", "diamond2", "artidx", "sha512")):
+        """One cached client doing several things in sequence: the observed copy follows a copy of the same image to
+        another repository of the target registry, or a fetch of every source manifest by digest."""
+        out = []
+        for sh in shapes:
+            for pr in ("tworeg", "samereg", "dir2reg"):
+                for prior in ("copy", "get"):
+                    out.append(self.scn(sh, pr, origin, prior=prior, cache=1, mode=self.rng.choice(["fifo", "random", "ungated"]),
+                                        tag0=self.rng.choice(["none", "stale"]), bydigest=self.rng.choice([0, 0, 1])))
         return out
 
     def rewinds(self, base_pairs, origin, kinds=("404", "401", "503")):
